@@ -290,6 +290,31 @@ const c13LieContent = 400
 var c13HostileStrings = []string{"\\", "\\@\\", "a\\", "abc\\", "a\\@b.c\\", "\"", "\"a", "\"a\\", "a@", "@", "@b", "a@b@", "a@[", ".", "..", "a..b", "*.", "*", ".a.", "%", "%zz", ":",
 	"http://", "http://[", "http://[::1", "//", "a://b:c", "[::1", "\x00", "a\x00b", "\xff\xff\xff\xff", "\x80", " ", "\n", "990101000000", "9901010000Z", "19990101000000+", "-"}
 
+// c13HostileOIDs: content octets of algorithm identifiers that exist but are rarely available (digests that are
+// registered in crypto.Hash without an implementation linked in, retired digests), of the common ones (so that an
+// element naming one algorithm names another), and malformed arcs.
+var c13HostileOIDs = [][]byte{
+	{0x2B, 0x24, 0x03, 0x02, 0x01},                                     // RIPEMD-160
+	{0x60, 0x86, 0x48, 0x01, 0x65, 0x03, 0x04, 0x02, 0x08},             // SHA3-256
+	{0x60, 0x86, 0x48, 0x01, 0x65, 0x03, 0x04, 0x02, 0x0A},             // SHA3-512
+	{0x60, 0x86, 0x48, 0x01, 0x65, 0x03, 0x04, 0x02, 0x04},             // SHA-224
+	{0x60, 0x86, 0x48, 0x01, 0x65, 0x03, 0x04, 0x02, 0x05},             // SHA-512/224
+	{0x60, 0x86, 0x48, 0x01, 0x65, 0x03, 0x04, 0x02, 0x06},             // SHA-512/256
+	{0x2A, 0x86, 0x48, 0x86, 0xF7, 0x0D, 0x02, 0x04},                   // MD4
+	{0x2A, 0x86, 0x48, 0x86, 0xF7, 0x0D, 0x02, 0x05},                   // MD5
+	{0x2A, 0x86, 0x48, 0x86, 0xF7, 0x0D, 0x02, 0x02},                   // MD2
+	{0x2B, 0x0E, 0x03, 0x02, 0x1A},                                     // SHA-1
+	{0x2B, 0x06, 0x01, 0x04, 0x01, 0x8D, 0x3A, 0x0C, 0x02, 0x01, 0x08}, // BLAKE2b-256
+	{0x2A, 0x81, 0x1C, 0xCF, 0x55, 0x01, 0x83, 0x11},                   // SM3
+	{0x60, 0x86, 0x48, 0x01, 0x65, 0x03, 0x04, 0x02, 0x01},             // SHA-256
+	{0x60, 0x86, 0x48, 0x01, 0x65, 0x03, 0x04, 0x02, 0x03},             // SHA-512
+	{0x2A, 0x86, 0x48, 0x86, 0xF7, 0x0D, 0x01, 0x01, 0x01},             // rsaEncryption
+	{0x2A, 0x81, 0x1C, 0xCF, 0x55, 0x01, 0x82, 0x2D},                   // sm2 (1.2.156.10197.1.301)
+	{0x80, 0x01}, // leading 0x80 in an arc
+	{0x2A, 0xFF}, // truncated multi-octet arc
+	{0xFF, 0xFF, 0xFF, 0xFF, 0xFF, 0xFF, 0xFF, 0xFF, 0xFF, 0x7F}, // arc beyond 64 bits
+}
+
 var c13LieVarsHostile = func() []c13LieVar {
 	var out []c13LieVar
 	for k := range c13HostileStrings {
@@ -405,6 +430,15 @@ func (a *c13Art) lieVariant(el int, v c13LieVar) ([]byte, string) {
 		case c13LieContent:
 			c := a.root.Clone()
 			t := c.Flatten()[el]
+			if t.Children == nil && t.Tag == 0x06 {
+				// an OBJECT IDENTIFIER names an algorithm: its VALUE is replaced by identifiers of algorithms a library may know by
+				// name but not implement (or not have linked in), and by malformed arcs
+				if v.k >= len(c13HostileOIDs) || bytes.Equal(t.Content, c13HostileOIDs[v.k]) {
+					return nil, ""
+				}
+				t.Content = append([]byte{}, c13HostileOIDs[v.k]...)
+				return c.Encode(), fmt.Sprintf("oid:=%x", c13HostileOIDs[v.k])
+			}
 			if !c13StringLike(t) {
 				return nil, ""
 			}
